@@ -554,6 +554,10 @@ func NewApp(
 		slashingtypes.ModuleName,
 		govtypes.ModuleName,
 		enttypes.ModuleName,
+		// stream must be initialised before crisis, like enterprise: crisis asserts every registered
+		// invariant during InitGenesis, and the stream escrow invariant fails (and panics) while the
+		// escrow balance has been imported by bank but the streams have not been imported yet
+		streamtypes.ModuleName,
 		crisistypes.ModuleName,
 		ibcexported.ModuleName,
 		genutiltypes.ModuleName,
